@@ -75,7 +75,7 @@ type SpecFunc struct {
 	Opaque bool
 }
 
-var kwRe = regexp.MustCompile(`^(func|spec|readers|between|preserved|internal|inline|eosexit|requires|ensures|decreases|loop|safe|modular|terminates|witness|witnessgo|unordered|usesonly|mapwrite|callsite|nobody|sitesonly|end)\b`)
+var kwRe = regexp.MustCompile(`^(func|spec|readers|writers|between|preserved|internal|inline|eosexit|requires|ensures|decreases|loop|safe|modular|terminates|witness|witnessgo|unordered|usesonly|mapwrite|callsite|nobody|sitesonly|end)\b`)
 
 func (e *Engine) loadContracts() error {
 	e.contracts = map[string]*Contract{}
@@ -174,6 +174,11 @@ func (e *Engine) parseContractFile(file, pkgPath, data string) error {
 			// readers[Cxx] <pkg.Global> <func>,<func>,...: the global is accessed only inside these functions
 			if len(fields) >= 3 {
 				e.readers = append(e.readers, ReadersClause{Tags: tags, Global: fields[1], Funcs: strings.Split(fields[2], ",")})
+			}
+		case "writers":
+			// writers[Cxx] <pkg.Type.Field> <func>,<func>,...: the field is stored to only inside these functions
+			if len(fields) >= 3 {
+				e.writers = append(e.writers, WritersClause{Tags: tags, Field: fields[1], Funcs: strings.Split(fields[2], ",")})
 			}
 		case "preserved":
 			// preserved <pred> <type> owners <pkg>,<pkg>,...
